@@ -163,6 +163,42 @@ impl<'t> TreeInfo<'t> {
     }
 }
 
+/// The recorded tree as a Coq `tree` term (Model/Tree.v).  Nodes in preorder (index = preorder id);
+/// kinds as code-point lists; named/error/missing flags; parent and children (cursor walk) as preorder
+/// ids; start/end as tree-sitter reports them (row, BYTE column); span = CHARACTER offsets of
+/// byte_range() into the source; the source as a code-point list.
+pub fn tree_coq(info: &TreeInfo) -> String {
+    let n = info.nodes.len();
+    let mut children: Vec<Vec<usize>> = vec![Vec::new(); n];
+    for (i, p) in info.parent.iter().enumerate() {
+        if let Some(p) = p { children[*p].push(i); }
+    }
+    // byte offset -> character offset (a byte inside a multi-byte character maps to that character)
+    let len = info.src.len();
+    let mut b2c = vec![0usize; len + 1];
+    let mut ci = 0usize;
+    for (bi, ch) in info.src.char_indices() {
+        for k in 0..ch.len_utf8() { b2c[bi + k] = ci; }
+        ci += 1;
+    }
+    b2c[len] = ci;
+    let conv = |b: usize| -> usize { if b > len { ci + (b - len) } else { b2c[b] } };
+    let mut items = Vec::with_capacity(n);
+    for (i, node) in info.nodes.iter().enumerate() {
+        let sp = node.start_position();
+        let ep = node.end_position();
+        let br = node.byte_range();
+        items.push(format!(
+            "{{| tn_kind := {}; tn_named := {}; tn_error := {}; tn_missing := {}; tn_parent := {}; tn_children := {}; tn_start := ({}, {}); tn_end := ({}, {}); tn_span := ({}, {}) |}}",
+            coq_str(node.kind()), coq_bool(node.is_named()), coq_bool(node.is_error()), coq_bool(node.is_missing()),
+            coq_opt(info.parent[i].map(|p| p.to_string())),
+            coq_list(&children[i].iter().map(|c| c.to_string()).collect::<Vec<_>>()),
+            sp.row, sp.column, ep.row, ep.column, conv(br.start), conv(br.end)));
+    }
+    format!("{{| t_src := {}; t_nodes := {} |}}", coq_str(info.src), coq_list(&items))
+}
+pub const EMPTY_TREE_COQ: &str = "{| t_src := []; t_nodes := [] |}";
+
 /// One correspondence case: a Coq expression of type N (0 = AGREE, k+1 = first difference at k,
 /// or a property-specific code), the expression printing the model's observation, replay data.
 pub struct Case {
